@@ -11,7 +11,7 @@ NormC(x) == [command |-> x.command, env |-> [nil |-> x.env.nil, m |-> Fn(x.env.m
              matrix |-> x.matrix, repo |-> x.repo]
 OtherSame(k) == [pair |-> "K2", alg |-> k.alg]
 OtherAlg(k) == [pair |-> "K3", alg |-> IF k.alg = "EdDSA" THEN "ES512" ELSE "EdDSA"]
-NonSemantic == {"none", "env_nil_vs_empty", "plugins_nil_vs_empty", "matrix_nil_vs_empty", "matrix_empty_adj", "plug_source_spelling", "plug_cfg_empty_vs_null",
+NonSemantic == {"none", "env_nil_vs_empty", "plugins_nil_vs_empty", "matrix_nil_vs_empty", "matrix_empty_alloc", "matrix_empty_adj", "plug_source_spelling", "plug_cfg_empty_vs_null",
                 "venv_extra_unsigned", "venv_extra_fieldname", "fields_permuted", "fields_duplicate", "keyset_signer_plus_others"}
 ApplyFieldOp(op, fs) ==       \* fs: the signed field list (a sequence)
     CASE op = "same" -> fs [] op = "reverse" -> Reverse(fs) [] op = "dup" -> Append(fs, fs[1]) [] op = "empty" -> <<>>
